@@ -47,7 +47,7 @@ type anyKey string
 type anyInt int16
 type anyF32 float32
 
-var anyTops = []string{"Inner", "Prims", "Opts", "Dflt", "Coll", "WithU", "Incl", "Incl2", "Rec", "Big", "IX", "IY", "U", "UN", "DOuter", "DElems", "Color", "Fx4", "DIn", "DEmp", "Wide"}
+var anyTops = []string{"Inner", "Prims", "Opts", "Dflt", "Coll", "WithU", "Incl", "Incl2", "Rec", "Big", "IX", "IY", "U", "UN", "DOuter", "DElems", "Color", "Fx4", "DIn", "DEmp", "Wide", "Alias2", "D1"}
 
 type anyLoop *anyLoop
 
@@ -466,6 +466,11 @@ func guise(r *hx.Rand, x interface{}, n *int) interface{} {
 			return []interface{}{strconv.FormatBool(y), ptrTo(y), []byte(strconv.FormatBool(y))}[r.Intn(3)]
 		}
 	case map[string]interface{}:
+		if len(y) == 0 && r.Chance(50) {
+			// an empty map in another guise: the nil map (present and empty, not absent)
+			*n++
+			return map[string]interface{}(nil)
+		}
 		a := map[string]interface{}{}
 		keys := make([]string, 0, len(y))
 		for k := range y {
@@ -480,6 +485,11 @@ func guise(r *hx.Rand, x interface{}, n *int) interface{} {
 		}
 		return a
 	case []interface{}:
+		if len(y) == 0 && r.Chance(50) {
+			// an empty array in another guise: the nil slice, which is what ror2Reader.ReadInterface returns for List()
+			*n++
+			return []interface{}(nil)
+		}
 		a := make([]interface{}, len(y))
 		for i := range y {
 			a[i] = guise(r, y[i], n)
